@@ -66,7 +66,7 @@ CLAUSE_PROPERTY = {
     'conf.error': 'C09',
     'val.u0_copied': 'C13', 'val.caller_u0_unchanged': 'C13', 'val.logged_unchanged': 'C13',
     'stats.entries': 'C14', 'stats.one_per_step': 'C14', 'stats.niter': 'C14', 'stats.filter': 'C14',
-    'stats.iteration_records': 'C14', 'stats.filter_without_type': 'C14', 'stats.work_counters': 'C14', 'conf.recv_levels': 'C07', 'val.residual_after_sweep': 'C03',
+    'stats.iteration_records': 'C14', 'stats.filter_without_type': 'C14', 'stats.work_counters': 'C14', 'stats.earlier_run_unchanged': 'C14', 'conf.recv_levels': 'C07', 'val.residual_after_sweep': 'C03',
 }
 
 
